@@ -16,6 +16,21 @@ CLAIMS = {
        "modelled (Jose/JsonParse.lean) and compared, not verified; streaming forms are covered under C07.",
   technique="Lean 4 theorem proving (structural induction, omega) + regenerated tables + differential correspondence",
   design="§6 C08"),
+ "C07": dict(
+  text="Machine-checked proof on the chain model Jose/IO.lean (mirror of lib/io.c, the streaming codecs of lib/b64.c with "
+       "their 48/64-byte staging buffers, transformer stages, multiplexer): for every chunking (any number of feeds, "
+       "empty and 1-byte feeds included) the streaming encoder delivers exactly the one-shot encoding and the "
+       "streaming decoder has the one-shot decoder's verdict and bytes; a buffer sink never exceeds its capacity over "
+       "any feed sequence; any/all multiplexer verdicts, empty multiplexer fails, dropped branches are never called "
+       "again; a refusal by the sink under any stack of codec/transformer stages makes the run fail (feed or done). "
+       "Chunking independence for arbitrary chain shapes and for the OpenSSL/zlib-backed stages is validated, not "
+       "proved: exhaustive compositions of lengths <=8 (quick) over 14 chain shapes, random trees of depth 3, every "
+       "probe failure position, against the real objects under ASan/UBSan and a denotational Python reference.",
+  note="Trusted: Lean kernel, standard axioms; model tied to code by differential testing only; transformer stages "
+       "(hash/inflate/deflate/cipher) are modelled at verdict level (what they emit in total), their stream laws are "
+       "validated on OpenSSL/zlib, not proved; general-shape chunking theorem not yet proved (stated in DESIGN §6 C07).",
+  technique="Lean 4 theorem proving (induction over chunk lists and chain syntax) + differential correspondence",
+  design="§6 C07"),
 }
 
 NOT_YET = "check not built yet (framework under construction); will be claimed when its Lean theorems and correspondence exist"
